@@ -306,8 +306,35 @@ def rule_order(ctx) -> None:
             k = kwarg(inl, "key")
             body = k.body if isinstance(k, ast.Lambda) else None
             if isinstance(body, ast.Tuple):
-                got = [x.attr if isinstance(x, ast.Attribute) else src(x) for x in body.elts]
+                def comp(x):
+                    # the attribute itself, or the attribute through a one-argument normaliser (a turn id may be 9 or "9")
+                    if isinstance(x, ast.Attribute):
+                        return x.attr
+                    if isinstance(x, ast.Call) and len(x.args) == 1 and not x.keywords and isinstance(x.args[0], ast.Attribute):
+                        return x.args[0].attr
+                    return src(x)
+                got = [comp(x) for x in body.elts]
                 ok = got[:4] == WANT and not (kwarg(inl, "reverse") is not None)
+                # the batch driver stages and commits its buffers in the order of its own buffer sort; a back-pressure flush writes
+                # what is staged so far, so the two orders must be the same order of turn ids: where the driver compares ids as
+                # integers when int() accepts them ("9" < "10"), the stager must too - raw ids sort "10" before "9" and a mixed
+                # int / str pair raises inside sorted() AFTER the buffer was moved out
+                drv = ctx.prog.funcs.get("clematis.engine.orchestrator.parallel:_sort_turn_buffers._key") or ctx.prog.funcs.get("clematis.engine.orchestrator.parallel:_sort_turn_buffers")
+                if drv is None:
+                    raise AnalysisError("anchor-vanished: the driver's buffer sort")
+                def normalises(node) -> bool:
+                    return any(isinstance(t, ast.Try) and any(isinstance(y, ast.Call) and dotted(y.func) == "int" for b in t.body for y in ast.walk(b))
+                               and any(isinstance(y, ast.Call) and dotted(y.func) == "str" for h in t.handlers for b in h.body for y in ast.walk(b)) for t in ast.walk(node))
+                drv_norm = normalises(drv.node)
+                t0 = body.elts[0]
+                st_norm = False
+                if isinstance(t0, ast.Call):
+                    r0 = ctx.prog.callee(drain, t0)
+                    st_norm = bool(r0 and r0[0] == "func" and r0[1] in ctx.prog.funcs and normalises(ctx.prog.funcs[r0[1]].node))
+                ctx.check((not drv_norm) or st_norm, "C16.ORDER", f"{drain.qual}/turn-order-agrees-with-the-driver", drain.loc(r.ast),
+                          "the stager orders turn ids the way the driver's buffer sort does (numeric where int() accepts the id, text otherwise)",
+                          f"the driver sorts its buffers by int(turn_id) where that works, the stager by the raw id `{src(t0)}`: for text ids ('9', '10' - run_smoke_turn uses text ids) the orders disagree, so "
+                          "whether a back-pressure flush falls between two buffers decides the per-file order; a mixed int / str pair raises TypeError inside drain_sorted after the buffer was emptied")
             elif isinstance(k, ast.Call) and dotted(k.func) in ("attrgetter", "operator.attrgetter"):
                 got = [const_str(a).split(".")[-1] if const_str(a) else "?" for a in k.args]
                 ok = got[:4] == WANT
@@ -632,6 +659,60 @@ def rule_rot(ctx) -> None:
                   "the live file is renamed last", "a cascade step or deletion is reachable after the live file was renamed")
 
 
+def rule_sibling_writers_total(ctx) -> None:
+    """"every record appended to a JSONL stream appears as exactly one complete line" for every JSONL writer of the engine, not
+    only the main append path: the perf streams and the quality trace append JSON lines too.  json.dumps(ensure_ascii=False)
+    hands a lone surrogate through, and a text file opened with encoding='utf-8' and the default error handler raises
+    UnicodeEncodeError when it is written - the record (and, in a batch write, every record after it) is lost.  Each such
+    writer escapes what UTF-8 cannot carry (errors='backslashreplace' on the file, or on the encode), like the main path."""
+    n = 0
+    for fn in ctx.prog.all_funcs("clematis."):
+        dumps = [x for x in walk_no_defs(fn.node) if isinstance(x, ast.Call) and dotted(x.func) == "json.dumps"]
+        if not dumps:
+            continue
+        for x in walk_no_defs(fn.node):
+            if not (isinstance(x, ast.Call) and call_tail(x) == "open"):
+                continue
+            mode = None
+            args = x.args if isinstance(x.func, ast.Attribute) else x.args[1:]
+            if args and const_str(args[0]):
+                mode = const_str(args[0])
+            mk = kwarg(x, "mode")
+            if mk is not None and const_str(mk):
+                mode = const_str(mk)
+            if not mode or "a" not in mode or "b" in mode:
+                continue
+            # only writers that put the dumped text into this file
+            n += 1
+            ascii_only = all(kwarg(d, "ensure_ascii") is None or (isinstance(kwarg(d, "ensure_ascii"), ast.Constant) and kwarg(d, "ensure_ascii").value is True) for d in dumps)
+            err = kwarg(x, "errors")
+            ok = ascii_only or (err is not None and const_str(err) in ("backslashreplace", "surrogateescape", "surrogatepass", "replace", "xmlcharrefreplace"))
+            ctx.check(ok, "C16.LINE", ctx.okey(f"{fn.qual}/appended-text-is-encodable"), fn.loc(x), f"`{src(x)[:60]}` escapes what UTF-8 cannot carry",
+                      f"`{src(x)[:60]}` appends json.dumps(..., ensure_ascii=False) text to a UTF-8 file with the strict error handler: a record holding a lone surrogate raises UnicodeEncodeError - it is "
+                      "not written (or silently dropped by the caller's handler), and in a batch write the healthy records after it are lost, where the main append path writes the JSON escape")
+    ctx.floor("C16.LINE", "text-mode JSONL append sites outside the main path", n, 2)
+
+
+def rule_rot_needs_a_live_file(ctx) -> None:
+    """"without losing any but the oldest": a rotation drops the oldest generation to make room for a NEW one - the live file.
+    Every destructive step of rotate_one (the removal of path.<backups>, the moves of the cascade) is reachable only where the
+    live file is known to exist; run on a missing live file (twice in a row, a second rotator that lost the race) it would
+    otherwise delete a generation for nothing and leave slot .1 empty."""
+    fn = ctx.func("clematis.scripts.rotate_logs:rotate_one")
+    cfg = ctx.cfg(fn)
+    path_p = fn.params[0]
+    destructive = [(n, c) for n in cfg.nodes for c in node_calls(n) if (call_tail(c) in ("remove", "unlink") or call_tail(c) in ("atomic_replace", "replace", "rename", "move"))
+                   and not (isinstance(c.func, ast.Attribute) and isinstance(c.func.value, ast.Constant)) and dotted(c.func) != "str.replace"]
+    ctx.floor("C16.ROT", "destructive steps of rotate_one", len(destructive), 3)
+    for n, c in destructive:
+        known = any(pol and t.replace(" ", "") == f"os.path.exists({path_p})" for t, pol in cfg.facts(n)) or \
+            any((not pol) and t.replace(" ", "") == f"notos.path.exists({path_p})" for t, pol in cfg.facts(n)) or \
+            any(pol and t.replace(" ", "") in (f"os.path.isfile({path_p})", f"Path({path_p}).exists()") for t, pol in cfg.facts(n))
+        ctx.check(known, "C16.ROT", ctx.okey(f"{fn.qual}/destructive-step-needs-the-live-file"), fn.loc(c), f"`{src(c)[:40]}` runs only where the live file exists",
+                  f"`{src(c)[:40]}` is reachable without the live file being there: with every slot taken and no live file the oldest generation is deleted and the others are shifted although no new "
+                  "generation arrives - N-1 generations are left and slot .1 is empty")
+
+
 def rule_rot_failed_move_stops(ctx) -> None:
     """"rotation keeps the newest N generations in order without losing any but the oldest": the cascade moves path.k to
     path.(k+1) from the oldest down, and each move overwrites its destination.  If a move fails for any reason other than "the
@@ -670,4 +751,6 @@ def run(ctx) -> None:
     rule_rewrite(ctx)
     rule_rewrite_bytes(ctx)
     rule_rot(ctx)
+    rule_sibling_writers_total(ctx)
+    rule_rot_needs_a_live_file(ctx)
     rule_rot_failed_move_stops(ctx)
